@@ -45,6 +45,14 @@ theorem cosine_symmetric (w : Nat) (hw : w = 8 ∨ w = 4) (a b : List α) (h : a
     cosine (exactOps α sq (|·|)) w a b = cosine (exactOps α sq (|·|)) w b a :=
   cosine_symm sq w hw a b h
 
+/-- **Cosine: AVX = SSE = portable in exact arithmetic**, given that the square root is
+multiplicative on the two squared norms — the one identity the two formulas differ by -/
+theorem cosine_agree (w : Nat) (hw : w = 8 ∨ w = 4) (a b : List α) (h : a.length = b.length)
+    (hmul : sq ((List.zipWith (fun x _ => x * x) a b).sum * (List.zipWith (fun _ y => y * y) a b).sum) =
+      sq (List.zipWith (fun x _ => x * x) a b).sum * sq (List.zipWith (fun _ y => y * y) a b).sum) :
+    cosine (exactOps α sq (|·|)) w a b = nativeCosine (exactOps α sq (|·|)) a b :=
+  cosine_impls_agree sq w hw a b h hmul
+
 /-- **In bounds, each element once**: the vector loop and the scalar tail of the C++ kernels read
 exactly the indices `0 … n-1` -/
 theorem loads (w n : Nat) : vecLoads w n ++ tailLoads w n = List.range n ∧
